@@ -3,8 +3,10 @@ package c03
 import (
 	"encoding/json"
 	"fmt"
+	"go/types"
 	"os"
 	"path/filepath"
+	"runtime"
 	"strings"
 
 	"verifharness/internal/core"
@@ -44,7 +46,25 @@ var clashWords = [][]string{
 	{"util", "utils", "common", "types", "v1", "api"},
 	// numbered fallback names that run into reserved std names: base3+"2" = base32, randv+"2" = randv2
 	{"base-3", "base_3", "base3", "Base3", "rand-v", "rand_v", "randv"},
+	// predeclared identifiers as candidate names (spellings that all give the same local name) ...
+	{"string", "String", "str-ing", "error", "Error", "any", "int", "In-t", "bool", "len", "new", "nil", "true", "iota", "float32", "uint8", "Rune", "append", "comparable"},
+	// ... and numbered fallback names that are predeclared: float3+"2" = float32, int3+"2" = int32, int6+"4" = int64
+	{"float-3", "float_3", "float3", "Float3", "int-3", "int_3", "int3", "uint-3", "uint3"},
+	{"int-6", "int_6", "int6", "Int6", "in-t6", "INT6"},
+	// keywords and predeclared identifiers that only appear once the word boundaries are folded and the name is lower-cased
+	// (go-to -> goTo -> goto): the keyword / predeclared tests must see the FINAL name
+	splitWords,
 }
+
+var splitWords = []string{"go-to", "GoTo", "go_to", "go.to", "goTo", "de-fer", "De_fer", "deFer", "fall-through", "fallThrough", "Fall_Through", "inter_face", "Inter-Face",
+	"pack.age", "Pack-Age", "sel-ect", "im-port", "Im_Port", "re-turn", "con-st", "st-ruct", "Str-uct", "ty-pe", "Ty_Pe", "fu-nc", "ch-an", "ma-p", "ra-nge", "sw-itch",
+	"ca-se", "el-se", "v-ar", "f-or", "i-f", "g-o", "G-O", "bre-ak", "cont-inue", "Defa.ult",
+	"str-ing", "Str_ing", "st.ring", "StrIng", "er-ror", "Er_Ror", "a-ny", "in-t", "In_T", "bo-ol", "le-n", "Le.N", "ne-w", "ni-l", "Ni_L", "tr-ue", "fal-se", "io-ta",
+	"float-32", "Float_32", "uint-8", "u-int", "by-te", "ru-ne", "app-end", "ma-ke", "pa-nic", "compar-able"}
+
+// identifiers of the universe scope (what the repaired bind refuses)
+var predeclSegs = []string{"string", "error", "any", "int", "bool", "len", "new", "nil", "true", "false", "iota", "float32", "float64", "byte", "rune",
+	"uint8", "uintptr", "complex128", "append", "cap", "make", "max", "min", "panic", "print", "recover", "comparable", "clear", "copy", "delete", "real", "imag", "close", "println", "complex"}
 var oddSegs = []string{"go", "type", "func", "map", "range", "select", "import", "package", "var", "chan", "default", "interface",
 	"2fa", "3d", "9", "007", "1x", "v2", "v1", "v10", "v0", "v", "v1beta1", "v-1", "v+2", "v99999999999999999999", "apis", "domain", "api",
 	"_", "-", "--", "__", "x--y", "_x", "x_", ".x", "a.b", "a..b", "_-", "~", "string", "error", "len", "pkg", "pkg2", "internal"}
@@ -66,7 +86,14 @@ func (g *gen) seg() string {
 		return core.Pick(g.r, plainSegs)
 	case k < 7:
 		return core.Pick(g.r, core.Pick(g.r, clashWords))
+	case k < 8:
+		return core.Pick(g.r, predeclSegs)
+	case k < 9:
+		return core.Pick(g.r, oddSegs)
 	default:
+		if g.r.Chance(50) {
+			return core.Pick(g.r, splitWords)
+		}
 		return core.Pick(g.r, oddSegs)
 	}
 }
@@ -256,6 +283,20 @@ func (prop) Generate(r *core.RNG, tier string) []json.RawMessage {
 		refs("example.com/m", "a.com/_-", "a.com/-", "a.com/_", ""),
 		refs("example.com/m", "a.com/x--y", "a.com/xy", "a.com/x..y"),
 		refs("example.com/m", "base-3", "base_3", "rand-v", "rand_v", "encoding/base32", "math/rand/v2"),
+		// keywords / predeclared identifiers that appear only after folding the word boundaries (seeded mutation C03-a:
+		// strings.ToLower moved behind the keyword test gave go-to -> goto)
+		refs("example.com/m", "github.com/acme/go-to", "example.com/GoTo", "a.com/de-fer", "a.com/fall-through", "a.com/inter_face", "a.com/pack.age", "a.com/sel-ect", "a.com/im-port"),
+		refs("example.com/m", "go-to", "GoTo", "de-fer", "Fall_Through", "g-o", "ty-pe", "i-f"),
+		refs("example.com/m", "a.com/str-ing", "a.com/Str_ing", "b.org/er-ror", "a.com/le-n", "a.com/float-32", "ni-l", "In_T", "a.com/x/tr-ue"),
+		// predeclared identifiers as local names (fixes/C03-3)
+		refs("example.com/m", "example.com/x/string"),
+		refs("example.com/m", "example.com/x/string", "example.com/xstring", "example.com/y/string", "string", "String"),
+		refs("example.com/m", "a.com/error", "a.com/any", "a.com/int", "a.com/bool", "a.com/len", "a.com/new", "a.com/nil", "a.com/true", "a.com/iota", "a.com/float32"),
+		refs("example.com/m", "error", "any", "int", "bool", "len", "new", "nil", "true", "iota", "float32"),
+		refs("example.com/m", "float3", "float-3", "float_3", "int6", "int-6", "int_6", "Int6", "in-t6"),
+		refs("example.com/m", "a.com/domain/string", "a.com/apis/len/v1", "a.com/x/apis/nil"),
+		{Self: "example.com/m", Ops: []opIn{{K: "ref", Via: "id", Path: "example.com/o", Name: "Pair", Args: []node{{Name: "string"}, {Path: "example.com/string", Name: "T"}}},
+			{K: "lit", Shape: "map", Elems: []node{{Name: "string"}, {Path: "a.com/int", Name: "T", Args: []node{{Name: "int"}}}}}}},
 		{Self: "example.com/m", Ops: []opIn{{K: "ref", Via: "id", Path: "example.com/o", Name: "List", Args: []node{{Path: "example.com/p/o", Name: "Item"}, {Name: "int"}, {Path: "example.com/m", Name: "Own"}}}}},
 		{Self: "example.com/m", Ops: []opIn{{K: "lit", Shape: "map", Elems: []node{{Path: "time", Name: "Duration"}, {Path: "example.com/time", Name: "Time", Args: []node{{Path: "a.com/go", Name: "T"}}}}}}},
 	}
@@ -292,6 +333,9 @@ func (prop) Generate(r *core.RNG, tier string) []json.RawMessage {
 			}
 		}
 		rec(nil)
+		// ... and over 7 paths whose candidates are predeclared identifiers (incl. the numbered fallback: float32)
+		small = []string{"a.com/string", "b.org/string", "string", "String", "float3", "float-3", "a.com/x/float-3"}
+		rec(nil)
 	}
 	return out
 }
@@ -327,8 +371,8 @@ func tablesChild(args []string) int {
 	}
 	var b strings.Builder
 	b.WriteString("(* GENERATED by `vh tables-C03` from pkg/namer/std.list of the checked repository — do not edit.\n")
-	b.WriteString("   The lines of the embedded list, in order, and the reserved-name table std.go builds from them\n")
-	b.WriteString("   (evaluated with the model of the tracker; Proofs/StdTable.v re-proves the side conditions). *)\n")
+	b.WriteString("   The lines of the embedded list, in order, the names of the universe scope, and the reserved-name table std.go builds\n")
+	b.WriteString("   from the list (evaluated with the model of the tracker; Proofs/StdTable.v re-proves the side conditions). *)\n")
 	b.WriteString("Require Import Gengo.Base.Bytes Gengo.Model.Tracker.\n\n")
 	b.WriteString("Definition std_lines : list bytes := [\n")
 	for i, l := range lines {
@@ -344,8 +388,25 @@ func tablesChild(args []string) int {
 		b.WriteString("\n")
 	}
 	b.WriteString("].\n\n")
-	b.WriteString("Definition std_built (fixed : bool) : res tracker := build_std fixed std_lines.\n")
-	b.WriteString("Definition std_tr : tracker :=\n  Eval vm_compute in match std_built true with Ok t => t | _ => empty_tracker end.\n")
+	// the predeclared identifiers the repaired bind refuses: the universe scope of the go/types the harness — and with
+	// it the tracker under test — is compiled with
+	b.WriteString("(* go/types.Universe.Names() of the toolchain the checked code is built with (" + runtime.Version() + ") *)\n")
+	b.WriteString("Definition universe_names : list bytes := [\n")
+	names := types.Universe.Names()
+	for i, n := range names {
+		t, ok := coqStringLit(n)
+		if !ok {
+			t = core.Hex(n)
+		}
+		b.WriteString("  " + t)
+		if i < len(names)-1 {
+			b.WriteString(";")
+		}
+		b.WriteString("\n")
+	}
+	b.WriteString("].\n\n")
+	b.WriteString("Definition std_built (fixed : bool) (pre : list bytes) : res tracker := build_std fixed pre std_lines.\n")
+	b.WriteString("Definition std_tr : tracker :=\n  Eval vm_compute in match std_built true universe_names with Ok t => t | _ => empty_tracker end.\n")
 	want := b.String()
 	if err := os.MkdirAll(dir, 0o755); err != nil {
 		fmt.Fprintln(os.Stderr, "tables-C03:", err)
